@@ -1,4 +1,5 @@
 import Rsbdd.Driver.BddCases
+import Rsbdd.Driver.FormulaCases
 import Std.Data.HashSet
 
 namespace Rsbdd
@@ -6,9 +7,13 @@ namespace Driver
 
 def dispatch (fields : List String) : Verdict :=
   match fields with
+  | "C01" :: rest => handleC01 rest
+  | "C06" :: rest => handleC06 rest
+  | "C09" :: rest => handleC09 rest
   | "C02" :: rest => handleC02 rest
   | "C03" :: rest => handleC03 rest
   | "C04" :: rest => handleC04 rest
+  | "C05" :: "eval" :: rest => handleEval false rest
   | "C05" :: rest => handleC05 rest
   | "C07" :: rest => handleC07 rest
   | "C20" :: rest => handleC20 rest
